@@ -464,6 +464,85 @@ func funcDeclRecv(f *ast.File, name string) *ast.FuncDecl {
 	return nil
 }
 
+
+// testAndSetOneRegion: in the function body, the field `recv.field` is read (directly, not through a
+// helper) and then written, and the mutex `lock` (printed form of the receiver of Lock/Unlock, e.g.
+// "ref.mu" or "cs") is held without interruption from that read to that write. `heldAtEntry` says
+// whether callers hold the lock. Statements are visited in source order; deferred unlocks do not count.
+func testAndSetOneRegion(fd *ast.FuncDecl, lock, recv, field string, heldAtEntry bool) bool {
+	if fd == nil || fd.Body == nil {
+		return false
+	}
+	region, held := 0, heldAtEntry
+	readRegion, ok, done := -1, false, false
+	isField := func(e ast.Expr) bool {
+		se, isSel := e.(*ast.SelectorExpr)
+		return isSel && se.Sel.Name == field && exprString(se.X) == recv
+	}
+	var visit func(n ast.Node) bool
+	visit = func(n ast.Node) bool {
+		if done {
+			return false
+		}
+		switch x := n.(type) {
+		case *ast.DeferStmt:
+			return false
+		case *ast.FuncLit:
+			return false
+		case *ast.IfStmt:
+			if x.Init != nil {
+				ast.Inspect(x.Init, visit)
+			}
+			ast.Inspect(x.Cond, visit)
+			// a branch that ends in a return does not influence what follows the if statement
+			terminates := len(x.Body.List) > 0
+			if terminates {
+				_, terminates = x.Body.List[len(x.Body.List)-1].(*ast.ReturnStmt)
+			}
+			r0, h0 := region, held
+			ast.Inspect(x.Body, visit)
+			if terminates && !done {
+				region, held = r0, h0
+			}
+			if x.Else != nil {
+				ast.Inspect(x.Else, visit)
+			}
+			return false
+		case *ast.CallExpr:
+			if se, isSel := x.Fun.(*ast.SelectorExpr); isSel && exprString(se.X) == lock {
+				switch se.Sel.Name {
+				case "Lock":
+					region++
+					held = true
+				case "Unlock":
+					region++
+					held = false
+				}
+			}
+		case *ast.AssignStmt:
+			for _, r := range x.Rhs {
+				ast.Inspect(r, visit)
+			}
+			for _, l := range x.Lhs {
+				if isField(l) {
+					ok = held && readRegion == region
+					done = true
+					return false
+				}
+				ast.Inspect(l, visit)
+			}
+			return false
+		case *ast.SelectorExpr:
+			if isField(x) && held && readRegion != region {
+				readRegion = region
+			}
+		}
+		return true
+	}
+	ast.Inspect(fd.Body, visit)
+	return ok
+}
+
 func extractLocks(repo string, o *out) {
 	files := []string{"grpcgcp/gcp_balancer.go", "grpcgcp/gcp_picker.go", "grpcgcp/gcp_multiendpoint.go",
 		"grpcgcp/gcp_interceptor.go", "grpcgcp/multiendpoint/multiendpoint.go"}
@@ -802,6 +881,17 @@ func extractLocks(repo string, o *out) {
 			ok = reads == 1 && notifyOK && waitOK
 		}
 		o.lines = append(o.lines, fmt.Sprintf("def monitorWaitsOnNotifiedState : Bool := %v", ok))
+	}
+	// check-then-act under one lock region (the models take these as single atomic steps):
+	//  C12: initStream tests cs.ClientStream == nil and assigns it while the callers' cs mutex stays held
+	//  C07: refresh tests ref.refreshing and sets it within one ref.mu region
+	{
+		inf := parse(filepath.Join(repo, "grpcgcp/gcp_interceptor.go"))
+		o.lines = append(o.lines, fmt.Sprintf("def initStreamTestAndSetAtomic : Bool := %v",
+			testAndSetOneRegion(funcDeclRecv(inf, "initStream"), "cs", "cs", "ClientStream", true)))
+		bf := parse(filepath.Join(repo, "grpcgcp/gcp_balancer.go"))
+		o.lines = append(o.lines, fmt.Sprintf("def refreshTestAndSetAtomic : Bool := %v",
+			testAndSetOneRegion(funcDeclRecv(bf, "refresh"), "ref.mu", "ref", "refreshing", false)))
 	}
 	// round-robin cursor (C09): rrRefId is advanced only by `atomic.AddUint32(&….rrRefId, 1)`
 	{
